@@ -274,20 +274,21 @@ class Body:
             return False
         return False
 
-    def guards(self, n):
-        """Conjunction of conditions under which n executes.
+    def guards(self, n, nested=False):
+        """Conjunction of conditions under which n executes (nested=True: also the negated paths to `return`s nested inside
+        earlier statements — kinds 'notarm' / 'notall', see _nested_exits).
 
         list of (polarity: bool, kind, payload)
           kind 'cond'  payload = condition expression node
           kind 'arm'   payload = (match node, arm index)           (polarity True)
           kind 'letelse' payload = Let stmt node                   (pattern matched)
         ordered outermost first."""
-        i = n["_i"]
+        i = (n["_i"], nested)
         if i in self._guards:
             return self._guards[i]
         out = []
         child = n
-        p = self.parent[i]
+        p = self.parent[n["_i"]]
         while p is not None:
             role = self.role[child["_i"]]
             k = p["k"]
@@ -319,6 +320,12 @@ class Body:
                             out.append((True, "cond", e["cond"]))
                         elif "else" in e and self.diverges(e["then"]) and not self.diverges(e["else"]):
                             out.append((False, "cond", e["cond"]))
+                    # function exits nested deeper inside an earlier statement (`let x = match y { None => return, .. }`,
+                    # `let n = if c { .. if d { return; } .. } else { .. }`): afterwards the path to that exit was not taken
+                    if nested:
+                        for neg in self._nested_exits(st):
+                            if neg not in out:
+                                out.append(neg)
             elif k == "MCall" and p.get("name") in ("then", "then_some") and isinstance(role, tuple) and role[0] == "args":
                 if self.ty(p["recv"]) == "bool":
                     out.append((True, "cond", p["recv"]))
@@ -326,6 +333,54 @@ class Body:
             p = self.parent[p["_i"]]
         out.reverse()
         self._guards[i] = out
+        return out
+
+    def _nested_exits(self, st):
+        """Negated path conditions of every `return` nested inside statement st (closures excluded).
+        A single condition c gives (not pol, 'cond', c); a single match arm gives (False, 'notarm', (match, i)); a longer
+        path gives (False, 'notall', [guards...]).  Exits already described by the statement-level forms are skipped."""
+        cached = st.get("_nx")
+        if cached is not None:
+            return cached
+        out = []
+        top = st.get("e") if st["k"] in ("Semi", "ExprStmt") else st.get("init")
+        if top is None:
+            st["_nx"] = out
+            return out
+        base = None
+        stack = [top]
+        rets = []
+        while stack:
+            x = stack.pop()
+            if x["k"] == "Closure":
+                continue
+            if x["k"] == "Ret":
+                rets.append(x)
+                continue
+            stack.extend(c for _, c in kids(x))
+        if not rets:
+            st["_nx"] = out
+            return out
+        base = self.guards(top)
+        for r in rets:
+            rel = [g for g in self.guards(r) if g not in base]
+            # drop the guards contributed by earlier statements of inner blocks that are themselves negations (keep path only)
+            if not rel:
+                continue
+            if len(rel) == 1:
+                pol, kind, payload = rel[0]
+                if kind == "cond":
+                    # statement-level `if c { return }` is already handled by the caller
+                    if st["k"] in ("Semi", "ExprStmt") and top["k"] == "If" and payload is top["cond"]:
+                        continue
+                    out.append((not pol, "cond", payload))
+                elif kind == "arm" and pol:
+                    out.append((False, "notarm", payload))
+                elif kind == "letelse":
+                    continue
+            else:
+                out.append((False, "notall", tuple(rel)))
+        st["_nx"] = out
         return out
 
     # ---- expression descriptors -----------------------------------------------------------
